@@ -301,7 +301,79 @@ fn exec(tc: &TransferControl, op: Op) -> Option<bool> {
     }
 }
 
+/// The idle watchdog as the canceller: the REAL `spawn_watchdog` thread scans a registry holding the
+/// transfer; the clock is already past the idle timeout when it starts, so its first scan cancels. The waiter
+/// (deadline an hour away) must come back with `Cancelled` without the clock moving again: once main has seen
+/// `is_cancelled()` it drops the registry (the watchdog thread then ends) and joins the waiter; a waiter that
+/// missed the wake-up is left blocked with every other thread finished, which loom reports as a deadlock.
+fn body_watchdog(spec: &Spec) {
+    let tc = TransferControl::with_replay_capacity(4, 1 << 20);
+    tc.set_peer(peer(0));
+    tc.push_replay(0, 2, false, vec![1, 2]);
+    tc.push_replay(2, 2, false, vec![3, 4]);
+    tc.record_sent(4);
+    let registry: Arc<repe::TransferRegistry<u64>> = Arc::new(repe::TransferRegistry::new());
+    registry.register(7, tc.clone());
+    let waiter = spec.waiter;
+    let w_tc = tc.clone();
+    let credit_deadline = VInstant(clock::peek_nanos() + FAR * SEC);
+    let wh = loom::thread::spawn(move || match waiter {
+        Waiter::Credit { c, .. } => match w_tc.wait_for_credit(c, credit_deadline) {
+            Ok(()) => WResult::Ok,
+            Err(CreditError::Cancelled(r)) => WResult::Cancelled(r),
+            Err(CreditError::Timeout) => WResult::Timeout,
+        },
+        Waiter::Reconnect { timeout_s } => match w_tc.wait_for_reconnect(Duration::from_secs(timeout_s)) {
+            ReconnectOutcome::ResumeReady(p) => WResult::ResumeReady(p.resume_at_offset),
+            ReconnectOutcome::Cancelled(r) => WResult::Cancelled(r),
+            ReconnectOutcome::Timeout => WResult::Timeout,
+        },
+    });
+    // signallers that do not satisfy the waiter (they only move the idle timestamps back a little)
+    let mut hs = Vec::new();
+    for script in spec.threads.iter().cloned() {
+        let tc = tc.clone();
+        hs.push(loom::thread::spawn(move || {
+            for op in script {
+                exec(&tc, op);
+            }
+        }));
+    }
+    for h in hs {
+        h.join().unwrap();
+    }
+    // 61 s without a chunk or an ack: idle for a 60 s timeout
+    clock::advance(61 * SEC);
+    repe::spawn_watchdog(registry.clone(), Duration::from_secs(60));
+    while !tc.is_cancelled() {
+        loom::thread::yield_now();
+    }
+    let weak = Arc::downgrade(&registry);
+    drop(registry);
+    let result = wh.join().unwrap();
+    // the detached watchdog thread must be past its last scan before this execution's main thread ends (it
+    // reads the virtual clock, which lives in per-execution storage): it holds no strong reference to the
+    // registry and no snapshot clone of the transfer any more, so its next `upgrade` fails and it returns
+    while weak.strong_count() > 0 || Arc::strong_count(&tc) > 1 {
+        loom::thread::yield_now();
+    }
+    match &result {
+        WResult::Cancelled(r) if r == "transfer idle" => {}
+        other => violation(
+            &key("illegal-wait-result"),
+            format!("waiter {waiter:?} returned {other:?} although the idle watchdog had cancelled the transfer (and nothing else could end the wait)"),
+        ),
+    }
+    if clock::peek_nanos() >= credit_deadline.0 {
+        violation(&key("early-timeout"), "harness: the clock reached the waiter's deadline".into());
+    }
+    harness::outcome(format!("{result:?} (idle watchdog)"));
+}
+
 pub fn body(spec: &Spec) {
+    if spec.name.starts_with("watchdog/") {
+        return body_watchdog(spec);
+    }
     let tc = TransferControl::with_replay_capacity(4, 1 << 20);
     tc.set_peer(peer(0));
     tc.push_replay(0, 2, false, vec![1, 2]);
@@ -620,6 +692,11 @@ pub fn catalogue(thorough: bool) -> Vec<Spec> {
             threads: vec![clock_thread.clone(), vec![Op::Ack(0, 1)], vec![Op::Ack(1, 4)]],
             main_tick: true,
         });
+    }
+    // the idle watchdog (the real `spawn_watchdog` thread) as the canceller
+    for (kind, w) in [("credit", cw), ("reconnect", rw), ("oversized", ow)] {
+        out.push(Spec { name: format!("watchdog/{kind}"), waiter: w, threads: vec![], main_tick: false });
+        out.push(Spec { name: format!("watchdog/{kind}/after-ackinsuf"), waiter: w, threads: vec![vec![Op::Ack(0, 1)]], main_tick: false });
     }
     // every Resume installs a peer id fixed by its position (thread, index)
     for spec in &mut out {
